@@ -103,8 +103,8 @@ def make_jobs(ctx):
     for h in ("h_lit_i32", "h_lit_i64", "h_lit_f32", "h_lit_f64"):
         jobs.append(ejob(ctx, "E." + h[2:], "c07_literal.c", h, ["c.c:wasmCWriteLiteral"], flags=["--unwind", "24", "--unwinding-assertions"], info=dict(layer="E")))
     jobs += g_probes(ctx)
-    j = Job("B.decimal_roundtrip", src=None, solver="static", funcs=["stringbuilder.c:stringBuilderAppendF32", "stringbuilder.c:stringBuilderAppendF64"],
-            bounded=("native sweep: f32 sampled 2^22 patterns + all boundary classes (quick) / all 2^32 patterns (thorough); f64 binade edges + 10^6 (quick) / 10^8 (thorough) seeded patterns"),
+    j = Job("B.decimal_roundtrip", src=None, solver="static", funcs=["stringbuilder.c:stringBuilderAppendF32", "stringbuilder.c:stringBuilderAppendF64", "stringbuilder.c:stringBuilderAppendI32/U32/I64/U64 (decimal text = value)"],
+            bounded=("native sweep: f32 sampled 2^22 patterns + all boundary classes (quick) / all 2^32 patterns (thorough); f64 binade edges + 10^6 (quick) / 10^8 (thorough) seeded patterns; integers: all powers of ten +-1, every a*10^9+b / a*10^18+b with small and nine-digit a, b, the type limits, 10^6 (quick) / 10^8 (thorough) seeded values, each text parsed back with strtoull/strtoll and checked for leading zeros"),
             info=dict(layer="bounded native stand-in", static_cmd="tools/decimal_roundtrip.c with the real stringbuilder.c"))
     j.static_fn = decimal_roundtrip
     jobs.append(j)
